@@ -30,6 +30,10 @@ TraceP(o) ==
       pairs == Pairs(st) IN
   /\ \A k \in DOMAIN o.h : (o.h[k].ok # oks[k]) => Fail("T-FAIL", "reg-call-" \o o.h[k].op, k, [model |-> oks[k], observed |-> o.h[k].ok, exc |-> o.h[k].exc])
   /\ (Len(o.probes) # Len(want) \/ Len(o.pairs) # Len(pairs)) => Fail("ECHO-FAIL", "lists", 0, <<>>)
+  \* the name the user symbol was spelled with (uk = 0: "foo"): a candidate TLC generates, spelled as TLC spells it, and
+  \* outside the frozen vocabulary - only then do the clauses below demand that strings mentioning it reach the user's definition
+  /\ (o.uk # 0 /\ (o.uk \notin 1..NCand \/ o.uname # USpell(o.uk) \/ ~UDemandedName(o.uname))) => Fail("ECHO-FAIL", "user-name", o.uk, <<>>)
+  /\ (o.uk = 0 /\ o.uname # "foo") => Fail("ECHO-FAIL", "user-name", 0, <<>>)
   /\ \A k \in DOMAIN o.probes :
        LET p == o.probes[k] IN
        k <= Len(want) =>
